@@ -460,14 +460,17 @@ def generate_schema_validator(
     elif isinstance(obj, UnionValidator):
         return {"oneOf": [to_schema_fn(s) for s in obj.validators]}
     elif isinstance(obj, NTupleValidator):
-        return {
+        ntuple_ret: Dict[str, Serializable] = {
             "description": f'a {len(obj.fields)}-tuple of the fields in "prefixItems"',
             "type": "array",
             "additionalItems": False,
             "maxItems": len(obj.fields),
             "minItems": len(obj.fields),
-            "prefixItems": [to_schema_fn(s) for s in obj.fields],
         }
+        # an empty "prefixItems" array is not a valid schema
+        if obj.fields:
+            ntuple_ret["prefixItems"] = [to_schema_fn(s) for s in obj.fields]
+        return ntuple_ret
     elif isinstance(obj, DateValidator):
         return date_schema(to_schema_fn, obj)
     elif isinstance(obj, DatetimeValidator):
